@@ -23,13 +23,13 @@ PROPS = {
     "C34": ("w1_resolve", "exploration", 3000, 400000, "4/C34"),
     "C13": ("w2_lifecycle", "exploration", 3000, 300000, "4/C13"),
     "C14": ("w2_lifecycle", "exploration", 3000, 300000, "4/C14"),
-    "C15": ("w2_lifecycle", "fault_enumeration", 2500, 250000, "4/C15"),
-    "C33": ("w2_lifecycle", "fault_enumeration", 2500, 250000, "4/C33"),
+    "C15": ("w2_lifecycle", "fault_enumeration", 2500, 12000, "4/C15"),
+    "C33": ("w2_lifecycle", "fault_enumeration", 2500, 15000, "4/C33"),
     "C16": ("w3_history", "exploration", 1000, 40000, "4/C16"),
     "C17": ("w4_repo", "exploration", 2000, 200000, "4/C17"),
-    "C18": ("w4_repo", "fault_enumeration", 2000, 200000, "4/C18"),
+    "C18": ("w4_repo", "fault_enumeration", 2000, 15000, "4/C18"),
     "C27": ("w4_repo", "exploration", 2000, 200000, "4/C27"),
-    "C28": ("w4_repo", "fault_enumeration", 2000, 200000, "4/C28"),
+    "C28": ("w4_repo", "fault_enumeration", 2000, 15000, "4/C28"),
     "C26": ("w5_registry", "exploration", 5000, 1000000, "4/C26"),
     "C31": ("w6_genfile", "fault_enumeration", 300, 20000, "4/C31"),
 }
@@ -171,6 +171,7 @@ def main(argv=None):
         return 2
     seed = int(os.environ.get("VERIF_SEED", core.DEFAULT_SEED))
     tier = args.tier if args.tier in ("quick", "thorough") else "quick"
+    os.environ["VERIF_TIER"] = tier  # worlds may enumerate instead of sample in the thorough tier (inherited by workers)
     try:
         boot()
         runfn, mod = load_runfn(prop)
